@@ -323,10 +323,10 @@ def rename_keys(ctx, struct, how):
     return ctx.done(ok, ctx.observe(tgt))
 
 
-def construct(ctx, specs, form='dict'):
+def construct(ctx, specs, form='dict', kinds=None):
     """Dataset(dict of arrays) with differing labels == outer join of the arrays"""
     from props.C12 import mk_inputs
-    arrs, refs = mk_inputs(ctx, specs)
+    arrs, refs = mk_inputs(ctx, specs, None, kinds)
     keys = ['k%d' % i for i in range(len(arrs))]
     if form == 'dict':
         r = ctx.call(lambda: ctx.da.Dataset(dict(zip(keys, arrs))))
@@ -464,5 +464,7 @@ def templates():
     add('construct-1d-1x2', 'construct', cost=1, specs=[[[X], [1]], [[X], [2]]])
     add('construct-2d', 'construct', cost=4, specs=[[[X, Y], [2, 2]], [[Y], [2]], [[], []]])
     add('construct-2d-b', 'construct', cost=4, specs=[[[X, Y], [2, 1]], [[Y, X], [2, 2]]])
+    add('construct-mixed-kinds', 'construct', cost=2, specs=[[[X], [2]], [[X], [2]]], kinds={'0:x': 'i', '1:x': 'f'})
+    add('construct-mixed-kinds-rev', 'construct', cost=2, specs=[[[X], [2]], [[X], [1]]], kinds={'0:x': 'f', '1:x': 'i'})
     add('construct-3vars', 'construct', cost=8, specs=[[[X], [2]], [[X], [1]], [[X], [2]]])
     return ts
